@@ -20,11 +20,11 @@
    back is the one rigs_remove_inplace computed (Model/MRigs.remove_inplace, with the code's max_depth), and that no
    rig id is left; C13_rig_mounted_world_pose composes it with property C06's theorem (Proofs/PRigs.remove_spec_gen:
    rigs_remove_inplace computes the composition along the rig chain, any nesting depth <= max_depth). *)
-From Coq Require Import List Bool String ZArith QArith Lia.
+From Coq Require Import List Bool String Ascii ZArith QArith Lia.
 From KV Require Import Eqb AL Str.
 From KV.Gen Require Import Tcolmap.
 From KV.Model Require Import MQV MPose MRigs MColmap.
-From KV.Proofs Require Import PColmap PRigs.
+From KV.Proofs Require Import PColmap PColmapTxt PRigs.
 Import ListNotations.
 Local Open Scope string_scope.
 Local Open Scope list_scope.
@@ -267,6 +267,62 @@ Print Assumptions C13_export_replaces_target.
 Print Assumptions C13_reused_target_history.
 Print Assumptions C13_points_with_integer_colours.
 
+(* ------------------------------------------------------------------ the TEXT of images.txt, character level
+   (split_colmap_image_line / export_to_colmap_images_txt).  A line is ' '.join of nine fields and the image name; a
+   field is not empty and free of blanks and commas ([field_ok]: what '{}'.format gives for a number); a name is any
+   string kapture's csv files can hold ([name_ok]: it does not begin with a blank or a comma and does not end with
+   a blank) -- so: several blanks in a row, tabs, commas INSIDE the name are all covered. *)
+(* the line written for an image is read back as exactly the nine fields and exactly the name *)
+Theorem C13_image_line_roundtrip : forall fields name,
+  List.length fields = 9%nat -> Forall (fun t => field_ok t = true) fields -> name_ok name = true ->
+  parse_image_line (emit_image_line fields name) = Some (fields, name).
+Proof. exact parse_emit_image_line. Qed.
+Print Assumptions C13_image_line_roundtrip.
+
+(* the whole file: any header of comment lines, then two lines per image (the second one, the 2-D points, may be
+   empty but is there): the importer reads back the records in order -- none lost, none shifted onto a second line *)
+Theorem C13_images_txt_roundtrip : forall header recs,
+  Forall (fun h => is_comment h = true) header -> Forall rec_ok recs ->
+  parse_images_txt (emit_images_txt header recs) = Some (map fst recs).
+Proof. exact parse_emit_images_txt. Qed.
+Print Assumptions C13_images_txt_roundtrip.
+
+(* tie with the dataset level: for EVERY dataset (in range or not) for which export writes an images.txt, every number
+   printer giving clean tokens and every image names kapture can hold, the text re-read is the list of records the
+   model of export produced (ids, the seven pose tokens, camera id, name) *)
+Theorem C13_exported_images_txt_parses :
+  forall comp (show : Q -> string) (show_z : Z -> string) legacy,
+  (forall x, field_ok (show x) = true /\ is_comment (show x) = false) ->
+  (forall z, field_ok (show_z z) = true /\ is_comment (show_z z) = false) ->
+  forall d header is,
+  export_timages comp string show legacy d = Some is ->
+  (forall n, In n (image_names d) -> name_ok n = true) ->
+  Forall (fun h => is_comment h = true) header ->
+  parse_images_txt (images_txt_of show_z header is) = Some (map (fun ti => (fields_of_timage show_z ti, ti_name string ti)) is).
+Proof. exact exported_images_txt_parses. Qed.
+Print Assumptions C13_exported_images_txt_parses.
+
+(* what the importer did before repair (E), for every line: the name comes back SQUEEZED (fields of the name
+   re-joined with single blanks), i.e. it was right exactly for the names with squeeze name = name *)
+Theorem C13_image_name_squeezed_before_repair : forall fields name,
+  List.length fields = 9%nat -> Forall (fun t => field_ok t = true) fields -> name_ok name = true ->
+  parse_image_line_legacy (emit_image_line fields name) = Some (fields, squeeze name).
+Proof. exact parse_emit_image_line_legacy. Qed.
+Print Assumptions C13_image_name_squeezed_before_repair.
+
+(* the hypotheses are satisfiable: a name with two blanks in a row, a tab and a comma inside; a file with a header *)
+Definition ex_fields : list string := ["12"; "0.5"; "-0.5"; "0.5"; "1e-05"; "1.0"; "-2.25"; "3.0"; "2"].
+Definition ex_name : string := String.append "dir/a  b" (String (ascii_of_nat 9) "c,d.jpg").
+Example C13_image_line_example :
+  List.length ex_fields = 9%nat /\ forallb field_ok ex_fields = true /\ name_ok ex_name = true
+  /\ parse_image_line (emit_image_line ex_fields ex_name) = Some (ex_fields, ex_name)
+  /\ squeeze ex_name = "dir/a b c d.jpg"
+  /\ parse_images_txt (emit_images_txt ["# Image list"; "#   IMAGE_ID, ..."]
+                        [(ex_fields, ex_name, ""); (ex_fields, "z.jpg", "1.5 2.5 -1 3.0 4.0 0")])
+     = Some [(ex_fields, ex_name); (ex_fields, "z.jpg")]
+  /\ parse_image_line "1 1 0 0 0" = None.
+Proof. repeat split; vm_compute; reflexivity. Qed.
+
 (* ------------------------------------------------------------------ non-vacuity: a concrete in-range dataset where
    each clause bites.  Image ids follow (timestamp, camera): "z.jpg" gets id 1, "m.jpg" id 2, "a.jpg" id 3, so the
    pair ("a.jpg", "z.jpg") is stored with swapped columns under pair id (1, 3) and swapped back on import; "a.jpg" is
@@ -371,3 +427,22 @@ Lemma C13_stale_images_txt_legacy_refuted :
   /\ (exists d', reexport_legacy ex_posed ex_unposed = Some d' /\ pose_of d' "b.jpg" = Some (ex_pose 0.5 0.5 0.5 0.5 1 2 3))
   /\ (exists d', roundtrip_spec ex_unposed = ROk d' /\ pose_of d' "b.jpg" = None).
 Proof. split; [vm_compute; reflexivity|]. split; eexists; split; vm_compute; reflexivity. Qed.
+
+(* (E) an image name with two blanks in a row: images.txt was cut into fields and the name re-joined with single
+   blanks, so the observation in the POSED image "a  x.jpg" came back in "a x.jpg", an image that does not exist *)
+Definition ex_two_blanks : dataset :=
+  mkD [("camA", Cam "PINHOLE" [640; 480; 500; 500; 320; 240])] None (Some [(1%Z, [("camA", ex_pose 1 0 0 0 0 0 0)])])
+      [(1%Z, [("camA", "a  x.jpg")]); (2%Z, [("camA", "b.jpg")])]
+      (Some (mkF 2 [("a  x.jpg", [[1; 2]]); ("b.jpg", [[3; 4]])])) None None [[1; 2; 3]] [(0%Z, [("a  x.jpg", 0%Z); ("b.jpg", 0%Z)])].
+Lemma C13_image_name_two_blanks_legacy_refuted :
+  in_range_repo MPose.compose2 ex_two_blanks = true /\ forallb name_ok (image_names ex_two_blanks) = true
+  /\ (exists d', roundtrip_squeezed ex_two_blanks = Some d' /\ image_names d' = ["a  x.jpg"; "b.jpg"]
+                 /\ obs_of d' 0 = [("a x.jpg", 0%Z); ("b.jpg", 0%Z)])
+  /\ (exists d', roundtrip_spec ex_two_blanks = ROk d' /\ obs_of d' 0 = [("a  x.jpg", 0%Z); ("b.jpg", 0%Z)])
+  /\ parse_image_line_legacy "1 1.0 0.0 0.0 0.0 0.0 0.0 0.0 1 a  x.jpg" = Some (["1"; "1.0"; "0.0"; "0.0"; "0.0"; "0.0"; "0.0"; "0.0"; "1"], "a x.jpg")
+  /\ parse_image_line "1 1.0 0.0 0.0 0.0 0.0 0.0 0.0 1 a  x.jpg" = Some (["1"; "1.0"; "0.0"; "0.0"; "0.0"; "0.0"; "0.0"; "0.0"; "1"], "a  x.jpg").
+Proof.
+  split; [vm_compute; reflexivity|]. split; [vm_compute; reflexivity|].
+  split; [eexists; repeat split; vm_compute; reflexivity|].
+  split; [eexists; split; vm_compute; reflexivity|]. split; vm_compute; reflexivity.
+Qed.
